@@ -17,6 +17,9 @@ EXPLANATION = (
     "check_module_tree; E5 rule-specific guards (argument count before zip, match exhaustiveness and unreachable arms, record field "
     "sets, negation of unsigned, signedness of literals, redeclaration)."
 )
+EXPLANATION += (  # round-3 supplement
+    " E5's unify_intvars part is decided by evaluating the function's decision code for all four flag combinations (vf/symex.py). E6 success of unify_fields is gated by a relation between both field counts. E7 the covered-variants collection of match_expr is kept duplicate-free. E8 the Never row of unification is directional (known finding)."
+)
 ASSUMPTIONS = [
     "unify / unify_inner themselves (the unification algorithm) are trusted beyond the occurs check decided under C06",
 ]
